@@ -132,13 +132,39 @@ func (i *vInterceptor) OnSend(m *ProducerMessage) {
 }
 
 type vPartitioner struct {
-	inner Partitioner
-	rec   *vRec
+	inner   Partitioner
+	rec     *vRec
+	leaders []int32 // scenario's initial leaders (0 = leaderless); static in the routing families
+}
+
+// the partition a choice denotes: index into the list the producer offered - all partitions, or
+// only the writable ones (those with a leader); -1 when it cannot be attributed
+func (p *vPartitioner) partitionOf(choice, n int32) int {
+	var all, writable []int
+	for i, l := range p.leaders {
+		all = append(all, i)
+		if l > 0 {
+			writable = append(writable, i)
+		}
+	}
+	if choice < 0 || choice >= n {
+		return -1
+	}
+	if int(n) == len(all) && int(n) == len(writable) {
+		return all[choice]
+	}
+	if int(n) == len(writable) {
+		return writable[choice]
+	}
+	if int(n) == len(all) {
+		return all[choice]
+	}
+	return -1
 }
 
 func (p *vPartitioner) Partition(m *ProducerMessage, n int32) (int32, error) {
 	c, err := p.inner.Partition(m, n)
-	p.rec.Ev("chose", kv{"id": msgID(m), "choice": int(c), "n": int(n), "err": errClass(err)})
+	p.rec.Ev("chose", kv{"id": msgID(m), "choice": int(c), "n": int(n), "part": p.partitionOf(c, n), "err": errClass(err)})
 	return c, err
 }
 func (p *vPartitioner) RequiresConsistency() bool { return p.inner.RequiresConsistency() }
@@ -283,11 +309,13 @@ func runProducerScenario(t testing.TB, rec *vRec, sc *prodScenario) {
 	case "manual":
 		config.Producer.Partitioner = NewManualPartitioner
 	case "hash":
-		config.Producer.Partitioner = func(topic string) Partitioner { return &vPartitioner{NewHashPartitioner(topic), rec} }
+		config.Producer.Partitioner = func(topic string) Partitioner { return &vPartitioner{NewHashPartitioner(topic), rec, cfgv.Leaders} }
 	case "rr":
-		config.Producer.Partitioner = func(topic string) Partitioner { return &vPartitioner{NewRoundRobinPartitioner(topic), rec} }
+		config.Producer.Partitioner = func(topic string) Partitioner {
+			return &vPartitioner{NewRoundRobinPartitioner(topic), rec, cfgv.Leaders}
+		}
 	case "random":
-		config.Producer.Partitioner = func(topic string) Partitioner { return &vPartitioner{NewRandomPartitioner(topic), rec} }
+		config.Producer.Partitioner = func(topic string) Partitioner { return &vPartitioner{NewRandomPartitioner(topic), rec, cfgv.Leaders} }
 	}
 	for i := 0; i < cfgv.Interceptors; i++ {
 		config.Producer.Interceptors = append(config.Producer.Interceptors, &vInterceptor{rec: rec, chain: i + 1, c: c, hdr: v.IsAtLeast(V0_11_0_0)})
